@@ -215,11 +215,13 @@ def ownerOfAnswer (σ : State) (c : Conn) (d : Dest) : Ev :=
 
 /-- The allowed steps of a history with lookups: a name operation is a `Step`; an addressed message is
 received by the owner of its destination AT THAT MOMENT and by nobody else, and changes nothing;
-GetNameOwner names that owner. -/
+GetNameOwner names that owner.  A message addressed to the bus itself is forwarded to nobody, whoever
+holds the name `org.freedesktop.DBus` in the table. -/
 def StepL (σ : State) (h : HStep) (o : HEv) (σ' : State) : Prop :=
   match h, o with
   | .op op, .events evs => Step σ op evs σ'
   | .send _ d, .delivered to => σ' = σ ∧ to = σ.ownerOf d
+  | .sendBus _, .delivered to => σ' = σ ∧ to = none     -- C14: "answered by the bus and not forwarded"
   | .ask c d, .events evs => σ' = σ ∧ evs = [ownerOfAnswer σ c d]
   | _, _ => False
 
